@@ -128,6 +128,34 @@ func MockSpecs(thorough bool) []*spec.Spec {
 			out = append(out, withCell(sp, "mock/kind=message,card=singular,package="+pk[0]+",examples=parsable", "extended", "valid", "mock"))
 		}
 	}
+	{
+		// several RPCs in one service, one of them with a response graph dense enough to hit the generator's per-response message
+		// budget (8 mutually referencing types), before and after an RPC whose small response carries examples: what one mock method
+		// gets must not depend on the RPCs generated before it
+		var dense []*spec.Message
+		for i := 0; i < 8; i++ {
+			m := spec.M(fmt.Sprintf("N%d", i), spec.F("label", "string"))
+			for j := 0; j < 8; j++ {
+				if j != i {
+					m.Fields = append(m.Fields, spec.Msg(fmt.Sprintf("to%d", j), fmt.Sprintf("N%d", j)))
+				}
+			}
+			dense = append(dense, m)
+		}
+		summary := func() *spec.Message {
+			return spec.M("Summary", spec.F("label", "string").Ex("alpha", "beta"), spec.F("count", "int64").Ex("7"), spec.Msg("detail", "Region"))
+		}
+		region := spec.M("Region", spec.F("region", "string").Ex("emea", "apac"))
+		for _, order := range []string{"dense_first", "dense_last"} {
+			rpcs := []*spec.Method{spec.RPC("GetGraph", "Req", "N0", "POST", "/graph"), spec.RPC("GetSummary", "Req", "Summary", "POST", "/summary"), spec.RPC("GetRegion", "Req", "Region", "POST", "/region")}
+			if order == "dense_last" {
+				rpcs = []*spec.Method{rpcs[1], rpcs[2], rpcs[0]}
+			}
+			f := &spec.File{Messages: append([]*spec.Message{spec.M("Req", spec.F("id", "string").R(`string:{min_len:1}`)), summary(), region}, dense...),
+				Services: []*spec.Service{spec.Svc("CatalogService", "/c", rpcs...), spec.Svc("ReportService", "/r", spec.RPC("GetReport", "Req", "Summary", "POST", "/report"))}}
+			out = append(out, withCell(spec.One("mock_budget_"+order, f), "mock/kind=message,card=dense_graph,order="+order+",examples=parsable", "extended", "valid", "mock"))
+		}
+	}
 	mk("examples_quote", "kind=string,card=singular,examples=quote", spec.M("Resp", spec.F("val", "string").Ex(`say "hi"`, `back\slash`)), nil, nil)
 	return out
 }
